@@ -162,12 +162,7 @@ func runC03(c *Ctx) {
 		c.obFollow("552 then reset", f, c.direct("reply:552"), []string{lReset}, nil, nil)
 		c.obFollow("final/failed chunk reply then reset|Close", f, c.direct("reply:dyn"), []string{lReset, lClose}, nil, nil)
 	}
-	if f := c.A.Func("(*Conn).handle"); f != nil {
-		c.obMustUnder("RSET resets", f, []string{lReset}, `strings.ToUpper(param1) == "RSET"`, `param1 != ""`)
-	}
-	if f := c.A.Func("(*Conn).handleGreet"); f != nil {
-		c.obMustUnder("repeated EHLO resets", f, []string{lReset}, aSessSet, `parseHelloArgument(param2)#1 == nil`)
-	}
+	ruleAbandonResets(c)
 	if f := c.A.Func("(*Conn).handleStartTLS"); f != nil {
 		c.obFollow("TLS upgrade then reset", f, c.direct("st:Conn.conn"), []string{lReset}, nil, nil)
 		c.obFollow("TLS upgrade then helo cleared", f, c.direct("st:Conn.conn"), []string{`st:Conn.helo=""`}, nil, nil)
@@ -241,5 +236,17 @@ func runC03(c *Ctx) {
 			}
 		})
 		R.Ob("(*Conn).TLSConnectionState/asserts on Conn.conn", c.P.Pos(f.Pos()), ok, "TLS state is no longer derived from the live connection field")
+	}
+}
+
+// ruleAbandonResets (C03 R-reset-at-end, C07 R-abort-on-every-exit): the commands by which a client abandons a
+// transaction run the connection's reset() (RSET, a repeated greeting) or Close (QUIT), which abort an open transfer.
+func ruleAbandonResets(c *Ctx) {
+	if f := c.A.Func("(*Conn).handle"); f != nil {
+		c.obMustUnder("RSET resets", f, []string{lReset}, `strings.ToUpper(param1) == "RSET"`, `param1 != ""`)
+		c.obMustUnder("QUIT closes", f, []string{lClose}, `strings.ToUpper(param1) == "QUIT"`, `param1 != ""`)
+	}
+	if f := c.A.Func("(*Conn).handleGreet"); f != nil {
+		c.obMustUnder("repeated EHLO resets", f, []string{lReset}, aSessSet, `parseHelloArgument(param2)#1 == nil`)
 	}
 }
